@@ -1074,10 +1074,16 @@ def check_C05(ctx):
 # =========================================================================== C20 erasure
 
 def check_C20(ctx):
-    ctx.lean()
     variants = ['prod', 'san', 'nobzero']
     if ctx.tier == 'thorough': variants += ['gcc-O0', 'gcc-O2', 'clang-O0', 'clang-O2', 'clang-O3']
     ctx.build(variants)
+    # the theorems of TJ.Props.C20 / C20Fallback are about the terms regenerated from the current sources (both configurations of the wipe primitive)
+    import taint
+    ok, stats = taint.regenerate(ctx, ('TJ.Props.C20', 'TJ.Props.C20Fallback'))
+    ctx.extra_cov['minic'] = {k: stats.get(k) for k in ('functions', 'translated', 'errors', 'build_ok')}
+    if stats.get('errors'): ctx.broken_proofs.append('tools/c2lean.py cannot translate the current sources: ' + '; '.join(stats['errors'][:3]))
+    elif not ok: ctx.broken_proofs.append('TJ.Props.C20 / C20Fallback no longer check against the regenerated free functions / wipe primitive: ' + re.sub(r'\s+', ' ', stats.get('build_log_tail', ''))[-700:])
+    ctx.lean(extra_modules=['TJ.Props.C20Fallback'])
     vs = variants + ['nobzero-clang'] + (['shared'] if ctx.tier == 'thorough' else [])
     g = ctx.g; lines = []; frees = []
     for h in range(30 if ctx.tier == 'quick' else 300):
